@@ -137,6 +137,36 @@ def correspond(ctx):
     ctx.sample({"state": exp[0][1], "angles": [exp[0][2][0], exp[0][2][1]], "rpy": exp[0][2][2]})
 
 
+def check_pixel_times(ctx, o, descr, fovs, rpy, t, layout, dt_s):
+    from pyorbital import geoloc
+    fovs = np.asarray(fovs, dtype=float)
+    k = fovs.shape[1]
+    offs = np.array([j * dt_s + (j // (k // 2)) * 6.0 for j in range(k)])
+    times = np.datetime64(t) + (offs * 1e9).astype("int64").astype("timedelta64[ns]")
+    if layout == "2d":
+        sg = geoloc.ScanGeometry(fovs.reshape(2, 2, k // 2), np.zeros((2, k // 2)))
+        tt = times.reshape(2, k // 2)
+    else:
+        sg = geoloc.ScanGeometry(fovs, np.zeros(k))
+        tt = times
+    with np.errstate(invalid="ignore"):
+        pix = np.asarray(geoloc.compute_pixels(o, sg, tt, rpy)).reshape(3, -1)
+    bad = 0
+    for j in range(k):
+        ctx.count("eval_oracle_pixel_times")
+        sg1 = geoloc.ScanGeometry(fovs[:, j:j + 1], np.zeros(1))
+        with np.errstate(invalid="ignore"):
+            one = np.asarray(geoloc.compute_pixels(o, sg1, times[j:j + 1], rpy)).reshape(3)
+        # (1 mm: in a batch the joint np.allclose exit of the latitude iteration may run a pass more than for one pixel alone,
+        #  which moves the nadir direction by ~1e-13 rad, i.e. micrometres on the ground)
+        if not np.allclose(pix[:, j], one, rtol=0, atol=1e-6, equal_nan=True):
+            ctx.violation("pixel_not_at_its_time", dict(descr, fovs=fovs.tolist(), rpy=list(rpy), layout=layout, dt_s=dt_s, index=j),
+                          list(pix[:, j]), "the pixel computed alone at its own time: %r" % list(one), site="geoloc.compute_pixels")
+            bad += 1
+            break
+    return bad
+
+
 def oracle(ctx):
     from pyorbital import geoloc
     n = ctx.size(40, 300)
@@ -163,6 +193,10 @@ def oracle(ctx):
             ctx.count("eval_oracle_2d")
             if pix2.shape != (3, 2, k // 2) or not np.allclose(pix2.reshape(3, -1), pix, rtol=0, atol=1e-9, equal_nan=True):
                 ctx.violation("shape_2d", dict(descr, fovs=fovs.tolist(), rpy=rpy), "2-D layout differs from 1-D", "same pixels", site="geoloc.compute_pixels")
+        # pixels observed at different times (along a line and from line to line), 1-D and 2-D layouts: every pixel is the
+        # one computed for that pixel alone, at its own time
+        if k % 2 == 0:
+            check_pixel_times(ctx, o, descr, fovs, rpy, t, ctx.rng.choice(["1d", "2d"]), ctx.rng.choice([0.05, 0.7, 5.8]))
         nadir_ref = -p / np.linalg.norm(p)
         for j in range(k):
             ctx.count("eval_oracle")
@@ -349,6 +383,11 @@ def replay(ctx, case):
     t = dt.datetime.fromisoformat(inp["utc"])
     p, v = [np.array(x, dtype=float) for x in o.get_position(t, normalize=False)]
     rpy = tuple(inp.get("rpy", (0.0, 0.0, 0.0)))
+    if "layout" in inp:
+        bad = check_pixel_times(ctx, o, {"line1": inp["line1"], "line2": inp["line2"], "utc": inp["utc"]}, inp["fovs"], rpy, t,
+                                inp["layout"], inp["dt_s"])
+        print("pixel-times case:", "violated" if bad else "holds")
+        return 1 if bad else 0
     if "fovs" in inp:
         fovs = np.array(inp["fovs"], dtype=float)
     elif "fx" in inp and "fy" in inp:
